@@ -278,6 +278,14 @@ static int brk_match(char *brk, int c, int flg)
 	return !not;
 }
 
+/* is the character before the current position a word character? */
+static int prevword(struct rstate *rs)
+{
+	if (rs->s == rs->o)
+		return (rs->flg & REG_PREV) && isword(rs->s - 1);
+	return isword(uc_beg(rs->o, rs->s - 1));
+}
+
 static int ratom_match(struct ratom *ra, struct rstate *rs)
 {
 	if (ra->ra == RA_CHR && !(rs->flg & REG_ICASE)) {
@@ -330,11 +338,9 @@ static int ratom_match(struct ratom *ra, struct rstate *rs)
 	if (ra->ra == RA_END && rs->s[0] == '\n')
 		return !(rs->flg & REG_NEWLINE);
 	if (ra->ra == RA_WBEG)
-		return !((rs->s == rs->o || !isword(uc_beg(rs->o, rs->s - 1))) &&
-			isword(rs->s));
+		return !(!prevword(rs) && isword(rs->s));
 	if (ra->ra == RA_WEND)
-		return !(rs->s != rs->o && isword(uc_beg(rs->o, rs->s - 1)) &&
-			(!rs->s[0] || !isword(rs->s)));
+		return !(prevword(rs) && (!rs->s[0] || !isword(rs->s)));
 	return 1;
 }
 
